@@ -211,7 +211,11 @@ class SimWorld:
         else:
             self.clock.advance(seconds)
 
+    quiet = False  # C18: record nothing per invocation
+
     def on_invoke(self, cls_name: str, kwargs: dict, data: Any = None) -> None:
+        if self.quiet:
+            return
         rec = {"run": self.cur_run, "node": self.cur_node, "cls": cls_name,
                "kwargs": {k: _jsonable(v) for k, v in sorted(kwargs.items())},
                "data": _data_repr(data)}
